@@ -486,9 +486,13 @@ class Session:
                     unordered = True
             if "t" in step and step["t"] is not None and "set" in self.kinds_of(step["t"]):
                 unordered = True
-        if unordered and out is not None and "union" in self.kinds_of(step.get("t")):
+        unordered_in = any(key in step and _has_unordered_input(step[key]) for key in ("x", "v", "xs"))
+        tk = self.kinds_of(step.get("t"))
+        if unordered and out is not None and ("union" in tk or (unordered_in and "set" not in tk)):
             # first-acceptor unions over an unordered input: which member accepts (or whether any
-            # does) can depend on the set's iteration order, i.e. on the hash seed
+            # does) can depend on the set's iteration order, i.e. on the hash seed; the same holds for
+            # an unordered input handed to an *ordered* target (a set enumerated into a list / mapping:
+            # which element gets which index follows the iteration order)
             c = ["hash-relative"]
         else:
             c = out.canon(unordered=unordered) if out is not None else ["fault"]
